@@ -44,6 +44,10 @@ type Node struct {
 	TaskKind string   `json:"taskKind,omitempty"`
 	Out      []string `json:"out,omitempty"` // outgoing flow ids in <outgoing> LISTING order
 	In       []string `json:"in,omitempty"`
+	// InDoc, if set, is what the DOCUMENT lists as the node's incoming flows
+	// instead of In (a stale list, e.g. after nodes were inserted in front of a
+	// join by hand): the sequence flows themselves still say where they lead
+	InDoc []string `json:"inDoc,omitempty"`
 	Default  string   `json:"default,omitempty"`
 	Results  []string `json:"results,omitempty"` // declared result fields (olive:results)
 	// ResultTypes optionally declares the item type per result (same index).
@@ -443,7 +447,11 @@ func nodeXML(n *Node, p *Program, pm *perm) string {
 		}
 		sb.WriteString("</bpmn:extensionElements>\n")
 	}
-	for _, in := range n.In {
+	ins := n.In
+	if n.InDoc != nil {
+		ins = n.InDoc
+	}
+	for _, in := range ins {
 		fmt.Fprintf(&sb, "<bpmn:incoming>%s</bpmn:incoming>\n", in)
 	}
 	for _, out := range n.Out {
